@@ -229,7 +229,7 @@ func (c06Stream) Impl(c Case) string {
 		cl.close()
 	}
 	sut.finish()
-	return verdict + "\t" + traceString(sut.tr.Snapshot(), "conn.", "loop.", "req.")
+	return verdict + "\t" + traceString(sut.tr.Snapshot(), "conn.", "loop.", "req.", "run.", "stop.")
 }
 
 // c06NoRouter: a server on which Router was never called. Every request must be refused by gldap itself, with the
@@ -277,7 +277,7 @@ func c06NoRouter(k, n int, mode string, rng *rand.Rand) string {
 		cl.close()
 	}
 	sut.finish()
-	return verdict + "\t" + traceString(sut.tr.Snapshot(), "conn.", "loop.", "req.")
+	return verdict + "\t" + traceString(sut.tr.Snapshot(), "conn.", "loop.", "req.", "run.", "stop.")
 }
 
 func (c06Stream) ModelLine(c Case, trace string) string { return "trace conn " + trace }
@@ -446,7 +446,7 @@ func (c10Stream) Impl(c Case) string {
 	sut.tr.Wait("conn.gone", conn, -1, 5*time.Second)
 	cl.close()
 	sut.finish()
-	return verdict + "\t" + traceString(sut.tr.Snapshot(), "conn.", "loop.", "req.")
+	return verdict + "\t" + traceString(sut.tr.Snapshot(), "conn.", "loop.", "req.", "run.", "stop.")
 }
 
 func (c10Stream) ModelLine(c Case, trace string) string { return "trace conn " + trace }
